@@ -6,7 +6,7 @@ from . import conn
 from .c15 import tolerated_set
 from .c16 import token_roundtrip
 from .conn import leaves, self_field, find_outcome, ret_kind
-from .util import propagated_error, as_sum, ok_payload_source, strip_map_err, const_of, is_call, last_seg, look, norm, option_is_some, transforms, truth, payload_of
+from .util import result_test, propagated_error, as_sum, ok_payload_source, strip_map_err, const_of, is_call, last_seg, look, norm, option_is_some, transforms, truth, payload_of
 
 EXPLANATION = (
     "Static decision of the grammar's structural clauses: RequestLine::try_from evaluates split, "
@@ -122,6 +122,31 @@ def parts(ctx):
 
     second_sp = lambda t: is_find_sp(t, rest)
     u_end = lambda t: some_payload(t, second_sp)
+
+    def splitn_piece(t):
+        """k if t is the k-th item (0-based) of  line.splitn(3, |b| b == SP):  the same three pieces as the two finds
+        (method, URI, and everything after the second SP)."""
+        src = payload_of(t)
+        if src is None or not is_call(src, "next"):
+            return None
+        it = look(src[2][0])
+        k = 0
+        while it[0] == "mut":
+            if last_seg(it[2]) != "next":
+                return None
+            it = look(it[1])
+            k += 1
+        if not (is_call(it, "splitn") and it[1].startswith("core::slice") and len(it[2]) == 3 and is_arg(it[2][0]) and const_of(it[2][1]) == 3):
+            return None
+        clo = look(it[2][2])
+        if not (clo[0] == "closure" and clo[1] in ctx.facts.fns):
+            return None
+        for l2 in PathEnum(ctx.facts.fns[clo[1]], ctx.facts).run():
+            r2 = look(l2.ret())
+            if not (r2[0] == "bin" and r2[1] == "Eq" and 32 in (const_of(r2[2]), const_of(r2[3]))):
+                return None
+        return k
+
     n_ok = 0
     for lf in lv:
         rk = ret_kind(lf)
@@ -133,6 +158,10 @@ def parts(ctx):
             good = tup[0] == "tuple" and len(tup[1]) == 3
             if good:
                 m, u, v = [look(x) for x in tup[1]]
+                if [splitn_piece(x) for x in (m, u, v)] == [0, 1, 2]:
+                    for nm in ("method", "uri", "version"):
+                        ctx.ob("R02.1", "parts|%s" % nm, True, "%s is piece %d of line.splitn(3, SP)" % (nm, ("method", "uri", "version").index(nm)), fn.loc(lf.bb))
+                    continue
                 gm = is_call(m, "index") and is_arg(m[2][0]) and rng(m[2][1], "RangeTo") is not None and m_end(rng(m[2][1], "RangeTo")[0])
                 gu = is_call(u, "index") and rest(u[2][0]) and rng(u[2][1], "RangeTo") is not None and u_end(rng(u[2][1], "RangeTo")[0])
                 gv = is_call(v, "index") and rest(v[2][0]) and rng(v[2][1], "RangeFrom") is not None and plus1(rng(v[2][1], "RangeFrom")[0], u_end)
@@ -142,7 +171,7 @@ def parts(ctx):
                 ctx.ob("R02.1", "parts|version", gv, "version = rest[second SP + 1..] (everything after the second SP)", fn.loc(lf.bb))
             else:
                 ctx.fail("R02.1", "parts|shape", "parse_request_line does not return a 3-tuple literal", fn.loc(lf.bb))
-        elif rk[0] == "Err" or (rk[0] == "prop" and propagated_error(rk[1])[1] is not None and is_call(propagated_error(rk[1])[0], "request::find")):
+        elif rk[0] == "Err" or (rk[0] == "prop" and propagated_error(rk[1])[1] is not None and is_call(propagated_error(rk[1])[0], "request::find", "next")):
             if rk[0] == "Err":
                 e = look(rk[1])
                 none1 = any(t[0] == "discr" and first_sp(t[1]) and option_is_some(c) is False for (t, c, _b) in lf.conds)
@@ -150,6 +179,10 @@ def parts(ctx):
             else:
                 src, e = propagated_error(rk[1])
                 none1, none2 = first_sp(src), second_sp(src)
+                if is_call(src, "next"):
+                    # a missing piece of splitn(3, SP): fewer than two SP
+                    k = splitn_piece(("payload", src))
+                    none1, none2 = k in (0, 1), k == 2
             ctx.ob("R02.1", "parts|malformed|%s" % ("no-first-sp" if none1 else "no-second-sp" if none2 else "other"), (none1 or none2) and e[0] == "agg" and e[2] == "InvalidRequest", "a line without two SP is InvalidRequest (malformed shape)", fn.loc(lf.bb))
     ctx.ob("R02.1", "parts|one-accepting-path", n_ok == 1, "%d accepting path(s) in parse_request_line" % n_ok, fn.loc(0))
 
@@ -221,7 +254,19 @@ def uri(ctx):
         if rk is None:
             continue
         empty = conn.atom_truth(lf, lambda t: is_call(t, "is_empty") and look(t[2][0]) == ("arg", 1))
-        utf8_err = any(t[0] == "discr" and is_from_utf8_of_input(t[1]) and (c == ("eq", 1) or (c[0] == "ne" and 0 in c[1])) for (t, c, _b) in lf.conds)
+        if empty is None:
+            # `Ok("") => ..`: the decoded text compared with the empty string (the bytes are empty iff the text is)
+            def eq_empty(t):
+                if not (is_call(t, "eq") and len(t[2]) == 2):
+                    return False
+                for a, b in ((t[2][0], t[2][1]), (t[2][1], t[2][0])):
+                    if const_of(b) == "" and payload_of(a) is not None and is_from_utf8_of_input(payload_of(a)):
+                        return True
+                return False
+            empty = conn.atom_truth(lf, eq_empty)
+            if empty is None:
+                empty = conn.atom_truth(lf, lambda t: is_call(t, "is_empty") and payload_of(t[2][0]) is not None and is_from_utf8_of_input(payload_of(t[2][0])))
+        utf8_err = any(result_test(t, c, lambda y: is_call(y, "from_utf8") and look(y[2][0]) == ("arg", 1)) == "err" for (t, c, _b) in lf.conds)
         if empty:
             seen.add("empty")
             e = look(rk[1]) if rk[0] == "Err" else None
@@ -292,8 +337,31 @@ def lines(ctx):
         sm = as_sum(t)
         return sm is not None and const_of(sm[1]) == 2 and pred(sm[0])
 
+    def advance_ok(fnobj, lf, adv_term):
+        """new line start == start + found + 2 under the path's conditions, `found` being the position find() returned for
+        buffer[start..end] (linear arithmetic: the spelling of the sum, checked_add chains and `found == 0` do not matter)."""
+        from ..lin import Lin, State
+        from ..panics import Tr
+        st = State()
+        tr = Tr(ctx.facts, fnobj, st)
+        found = None
+        pool = [adv_term] + [t for (t, c, _b) in lf.conds]
+        for t in pool:
+            for x in subterms(t):
+                if isinstance(x, tuple) and x and x[0] in ("payload", "field") and find_payload(x):
+                    found = x
+                    break
+            if found is not None:
+                break
+        if found is None:
+            return False
+        for e in lf.events:
+            if e[0] == "cond":
+                tr.assume_cond(e[3], e[4])
+        return st.entails_eq(tr.lin(adv_term) - tr.lin(("deref", ("arg", 2))) - tr.lin(found) - Lin.const(2))
+
     # request line
-    fn, lv = leaves(ctx, conn.PARSE_RL)
+    fn, lv = leaves(ctx, conn.PARSE_RL, lower=True)
     n = 0
     for lf in lv:
         ev = [e for e in lf.events if e[0] == "call" and e[3] == "request::RequestLine::try_from"]
@@ -303,11 +371,11 @@ def lines(ctx):
             ok = r is not None and is_start(r[0]) and start_plus_found(r[1])
             ctx.ob("R02.5", "request-line|slice", ok, "RequestLine::try_from gets buffer[start .. start + find(buffer[start..end], CRLF))", fn.loc(e[1]))
             adv = [a for a in lf.events if a[0] == "assign" and a[3] == "(*_2)"]
-            ok2 = len(adv) == 1 and plus2(adv[0][4], start_plus_found)
+            ok2 = len(adv) == 1 and advance_ok(fn, lf, adv[0][4])
             ctx.ob("R02.5", "request-line|advance", ok2, "the line start advances to just after the CRLF (start + found + 2)", fn.loc(e[1]))
     ctx.ob("R02.5", "request-line|sites", n >= 2, "%d path(s) hand a request line to RequestLine::try_from (floor 2)" % n, fn.loc(0))
     # header line
-    fn, lv = leaves(ctx, conn.PARSE_H)
+    fn, lv = leaves(ctx, conn.PARSE_H, lower=True)
     n = 0
     for lf in lv:
         ev = [e for e in lf.events if e[0] == "call" and e[3] == conn.PHL]
@@ -319,13 +387,13 @@ def lines(ctx):
             rk = ret_kind(lf)
             if rk and rk[0] == "Ok":
                 adv = [a for a in lf.events if a[0] == "assign" and a[3] == "(*_2)"]
-                ok2 = len(adv) == 1 and plus2(adv[0][4], start_plus_found)
+                ok2 = len(adv) == 1 and advance_ok(fn, lf, adv[0][4])
                 ctx.ob("R02.5", "header-line|advance", ok2, "after a header line the line start is start + found + 2", fn.loc(e[1]))
         if find_outcome(lf) == "some0":
             rk = ret_kind(lf)
             if rk and rk[0] == "Ok":
                 adv = [a for a in lf.events if a[0] == "assign" and a[3] == "(*_2)"]
-                ok2 = len(adv) == 1 and plus2(adv[0][4], is_start)
+                ok2 = len(adv) == 1 and advance_ok(fn, lf, adv[0][4])
                 ctx.ob("R02.5", "end-of-headers|advance", ok2, "after the blank line the line start is start + 2", fn.loc(lf.bb))
     ctx.ob("R02.5", "header-line|sites", n >= 4, "%d path(s) hand a header line to parse_header_line (floor 4)" % n, fn.loc(0))
     # the pending request is created with default headers and no body
